@@ -226,13 +226,29 @@ func TestVerifC09(t *testing.T) {
 	}
 	// jobs under a workflow_call header: the inputs / needs object types are shared by the whole
 	// file; a job that merges them into its matrix must not change what later jobs see
-	families = append(families, &c09Family{name: "call-jobs", header: "on:\n  workflow_call:\n    inputs:\n      version:\n        type: string\njobs:\n", items: []c09Item{
+	families = append(families, &c09Family{name: "call-jobs", header: "on:\n  workflow_call:\n    inputs:\n      version:\n        type: string\n      exclude:\n        type: string\n      include:\n        type: string\njobs:\n", items: []c09Item{
+		{name: "cmatrixinputs", text: "  cmatrixinputs:\n    runs-on: ubuntu-latest\n    strategy:\n      matrix: ${{ inputs }}\n    steps:\n      - run: echo ${{ matrix.version }} ${{ matrix.nope }}\n"},
+		{name: "cmatrixneeds", text: "  cmatrixneeds:\n    needs: [cplain]\n    runs-on: ubuntu-latest\n    strategy:\n      matrix: ${{ needs.cplain.outputs }}\n    steps:\n      - run: echo ${{ matrix.o }}\n", deps: []string{"cplain"}},
+		{name: "cvictimexcl", text: "  cvictimexcl:\n    runs-on: ubuntu-latest\n    steps:\n      - run: echo ${{ inputs.exclude }} ${{ inputs.include }} ${{ inputs.exclude.x }} ${{ inputs.o }}\n"},
 		{name: "cplain", text: "  cplain:\n    runs-on: ubuntu-latest\n    outputs:\n      o: v\n    steps:\n      - run: echo ${{ inputs.version }}\n"},
 		{name: "cvictim", text: "  cvictim:\n    runs-on: ubuntu-latest\n    steps:\n      - run: echo ${{ inputs.flavor }} ${{ inputs.version.x }} ${{ github.flavor }}\n"},
 		{name: "caliasinputs", text: "  caliasinputs:\n    runs-on: ubuntu-latest\n    strategy:\n      matrix:\n        include:\n          - ${{ inputs }}\n          - flavor: debug\n    steps:\n      - run: echo ${{ matrix.flavor }}\n"},
 		{name: "caliasunknown", text: "  caliasunknown:\n    runs-on: ubuntu-latest\n    strategy:\n      matrix:\n        include:\n          - ${{ inputs }}\n          - ${{ fromJSON(vars.X) }}\n    steps:\n      - run: echo ${{ matrix.anything }}\n"},
 		{name: "caliasneeds", text: "  caliasneeds:\n    needs: [cplain]\n    runs-on: ubuntu-latest\n    strategy:\n      matrix:\n        include:\n          - ${{ needs.cplain.outputs }}\n          - zz: 1\n    steps:\n      - run: echo ${{ matrix.zz }}\n", deps: []string{"cplain"}},
 		{name: "cvictimneeds", text: "  cvictimneeds:\n    needs: [cplain]\n    runs-on: ubuntu-latest\n    steps:\n      - run: echo ${{ needs.cplain.outputs.zz }} ${{ needs.cplain.outputs.o }}\n", deps: []string{"cplain"}},
+	}})
+	// jobs whose runner labels are spelled in several letter cases, under a configuration that
+	// declares self-hosted labels (exact and glob): what one job's label resolved to must not
+	// decide another job's
+	families = append(families, &c09Family{name: "label-jobs", header: "on: push\njobs:\n", items: []c09Item{
+		{name: "gpuok", text: "  gpuok:\n    runs-on: gpu-a100\n    steps:\n      - run: echo\n"},
+		{name: "gpucase", text: "  gpucase:\n    runs-on: GPU-A100\n    steps:\n      - run: echo\n"},
+		{name: "bigmem", text: "  bigmem:\n    runs-on: [self-hosted, bigmem]\n    steps:\n      - run: echo\n"},
+		{name: "bigmemcase", text: "  bigmemcase:\n    runs-on: [Self-Hosted, BigMem, LINUX]\n    steps:\n      - run: echo\n"},
+		{name: "gpumatrix", text: "  gpumatrix:\n    strategy:\n      matrix:\n        os: [gpu-h100, Gpu-H100, gpu-a100, ubuntu-latest]\n    runs-on: ${{ matrix.os }}\n    steps:\n      - run: echo\n"},
+		{name: "presets", text: "  presets:\n    runs-on: [self-hosted, linux, ARM64]\n    steps:\n      - run: echo\n        shell: cmd\n"},
+		{name: "unknownlabel", text: "  unknownlabel:\n    runs-on: [self-hosted, nosuch, NoSuch, bigmemx]\n    steps:\n      - run: echo\n"},
+		{name: "hosted", text: "  hosted:\n    runs-on: [Ubuntu-Latest, bigmem]\n    steps:\n      - run: echo\n        shell: pwsh\n"},
 	}})
 	// expression family: each expression is its own step (separate strings)
 	ex := &c09Family{name: "exprs", header: "on: pull_request\njobs:\n  j:\n    runs-on: ubuntu-latest\n    strategy:\n      matrix:\n        os: [a]\n        z: [[1, 2]]\n    steps:\n      - id: a\n        run: echo\n"}
@@ -287,12 +303,17 @@ func TestVerifC09(t *testing.T) {
 		return vexec.Outcome{Stdout: []byte(`[{"line":2,"column":1,"level":"warning","code":2086,"message":"Double quote."}]`), ExitCode: 1}
 	}
 	defer func() { vexec.LookPathFn, vexec.Handler = nil, nil }()
-	toolOpts := &LinterOptions{Shellcheck: "shellcheck", Pyflakes: "pyflakes"}
+	cfgFile := filepath.Join(vTempDir(t, "c09-"), "actionlint.yaml")
+	if err := os.WriteFile(cfgFile, []byte("self-hosted-runner:\n  labels:\n    - gpu-*\n    - bigmem\n"), 0o644); err != nil {
+		r.HarnessError("%v", err)
+		return
+	}
+	toolOpts := &LinterOptions{Shellcheck: "shellcheck", Pyflakes: "pyflakes", ConfigFile: cfgFile}
 	lint := func(src string) vLintResult { return vLint(src, toolOpts) }
 	aloneCache := map[string][]string{}
 	var idx int64
 	for _, f := range families {
-		maxLen := map[string]int{"jobs": jobLen, "steps": stepLen, "exprs": exprLen, "call-jobs": 4}[f.name]
+		maxLen := map[string]int{"jobs": jobLen, "steps": stepLen, "exprs": exprLen, "call-jobs": 4, "label-jobs": 4}[f.name]
 		c09Sequences(len(f.items), maxLen, func(sel []int) bool {
 			idx++
 			if !r.Mine(idx) {
@@ -318,7 +339,7 @@ func TestVerifC09(t *testing.T) {
 				return true
 			}
 			for k, it := range seq {
-				aseq := f.alone(seq, k, f.name != "jobs" && f.name != "call-jobs")
+				aseq := f.alone(seq, k, f.name != "jobs" && f.name != "call-jobs" && f.name != "label-jobs")
 				var names []string
 				pos := 0
 				for i, a := range aseq {
